@@ -3,11 +3,11 @@
     witness) and followed by [Print Assumptions].  Spec: Spec11.v.  Models: ModelRange11.v (RangeToken), Model11.v
     (ParserForXMLSchema, compile, match; the \s \d \w \i \c sets come from Gen/GenC11.v, regenerated on every run).
 
-    Not proved here (checked by the correspondence and the extracted oracle only): soundness of the matcher as it
-    stands (T11_match_sound of the design), the set semantics of subtractRanges / intersectRanges / complementRanges,
-    the parser round trip, pre-filters, tokenize/replace. *)
+    Not proved here (checked by the correspondence and the extracted oracle only): completeness on a deterministic
+    class (T11_match_complete_det of the design), the parser round trip (the parser model is tied by correspondence),
+    pre-filters, tokenize/replace. *)
 From Coq Require Import Arith PeanoNat.
-From XV Require Import C11.Spec11 C11.ModelRange11 C11.Model11 C11.Proofs11a C11.Proofs11b C11.Proofs11c.
+From XV Require Import C11.Spec11 C11.ModelRange11 C11.Model11 C11.Proofs11a C11.Proofs11b C11.Proofs11c C11.Proofs11d C11.Proofs11e C11.Proofs11f C11.Proofs11g.
 Local Open Scope N_scope.
 
 (* ---------------------------------------------------------------------------------------------- *)
@@ -34,7 +34,7 @@ Example T11_quantifier_nonvacuous : dmatch_re (RRep 2 (Some 3%nat) (RChar 97)) [
 Proof. vm_compute. repeat split. Qed.
 
 (* ---------------------------------------------------------------------------------------------- *)
-(** * range algebra (T11_range_algebra, partial: sort, compact, merge, repaired addRange, match, array bounds) *)
+(** * range algebra (T11_range_algebra: sort, compact, merge, repaired addRange, subtract, intersect, complement, match, array bounds) *)
 Theorem T11_range_sort : forall l c, rmem (rsort l) c = rmem l c /\ sorted_ok (rsort l) = true.
 Proof. intros l c. split; [apply rmem_rsort | apply sorted_rsort]. Qed.
 Print Assumptions T11_range_sort.
@@ -76,6 +76,53 @@ Print Assumptions T11_addRange_drop_refuted.
 Theorem T11_range_match : forall neg l c, compact_ok l = true -> rt_match neg l c = xorb neg (rmem l c).
 Proof. exact rt_match_spec. Qed.
 Print Assumptions T11_range_match.
+
+
+(** subtractRanges / intersectRanges / complementRanges denote difference, intersection and complement within
+    0..0x10FFFF.  [rt_inv]: the token is well formed and its fSorted / fCompacted flags are truthful. *)
+Theorem T11_range_subtract : forall t o c, rt_inv t -> rt_inv o ->
+  rmem (rs (subtractRanges t o false)) c = rmem (rs t) c && negb (rmem (rs o) c).
+Proof. exact subtractRanges_spec. Qed.
+Print Assumptions T11_range_subtract.
+
+Theorem T11_range_subtract_nrange : forall t o c, rt_inv t -> rt_inv o -> alloc t = true -> alloc o = true ->
+  rmem (rs (subtractRanges t o true)) c = rmem (rs t) c && negb (negb (rmem (rs o) c)).
+Proof. exact subtractRanges_neg_spec. Qed.
+Print Assumptions T11_range_subtract_nrange.
+
+Theorem T11_range_intersect : forall t o c, rt_inv t -> rt_inv o -> alloc t = true -> alloc o = true ->
+  rmem (rs (intersectRanges t o)) c = rmem (rs t) c && rmem (rs o) c.
+Proof. exact intersectRanges_spec. Qed.
+Print Assumptions T11_range_intersect.
+
+Theorem T11_range_complement : forall fx t c, rt_inv t -> alloc t = true ->
+  (forall p, In p (rs t) -> snd p <= 0x10FFFF) -> c <= 0x10FFFF ->
+  rmem (rs (complementRanges fx t)) c = negb (rmem (rs t) c).
+Proof. exact complementRanges_spec. Qed.
+Print Assumptions T11_range_complement.
+
+Theorem T11_range_cap_subtract : forall t o oneg, rt_inv t -> rt_inv o -> cap_ok t -> cap_ok o -> cap_ok (subtractRanges t o oneg).
+Proof. exact subtractRanges_cap. Qed.
+Print Assumptions T11_range_cap_subtract.
+
+Theorem T11_range_cap_intersect : forall t o, rt_inv t -> rt_inv o -> cap_ok t -> cap_ok o -> cap_ok (intersectRanges t o).
+Proof. exact intersectRanges_cap. Qed.
+Print Assumptions T11_range_cap_intersect.
+
+Theorem T11_range_cap_complement : forall fx t, cap_ok (complementRanges fx t).
+Proof. exact complementRanges_cap. Qed.
+Print Assumptions T11_range_cap_complement.
+
+Definition ex_tok_a : rtok := addRange true (addRange true (addRange true rt_new 10 20) 1 3) 15 30.
+Definition ex_tok_b : rtok := addRange true (addRange true rt_new 2 12) 25 26.
+Example T11_range_inv_nonvacuous :
+  rt_inv ex_tok_a /\ rt_inv ex_tok_b /\ cap_ok ex_tok_a /\
+  rs (subtractRanges ex_tok_a ex_tok_b false) = [(1, 1); (13, 24); (27, 30)] /\
+  rs (intersectRanges ex_tok_a ex_tok_b) = [(2, 3); (10, 12); (25, 26)] /\
+  rs (complementRanges false ex_tok_b) = [(0, 1); (13, 24); (27, 0x10FFFF)].
+Proof.
+  unfold rt_inv, rt_wf, cap_ok. vm_compute. repeat split; try discriminate; try reflexivity; intros; try discriminate; try lia.
+Qed.
 
 (** index safety: fElemCount never exceeds the fMaxCount the C++ computes (used by C01) *)
 Theorem T11_range_cap_add : forall fx t a b, cap_ok t -> (2 <= maxc t)%nat -> cap_ok (addRange fx t a b).
@@ -136,6 +183,39 @@ Example T11_match_complete_refuted_2 :
   xmatch_tok sw_faithful 200 t_alt_star [97; 98; 98] = XFalse /\ xmatch_fixed_tok false [97; 98; 98] t_alt_star = true /\
   xmatch_tok sw_faithful 200 t_a_star_ab_opt [97; 97] = XTrue.
 Proof. vm_compute. repeat split. Qed.
+
+
+(** T11_match_sound: the matcher AS IT STANDS (any setting of the repair switches, in particular the faithful one;
+    every fuel) never accepts a string outside the language of the token tree.  All op kinds of the model are
+    covered (char, dot, range, string, union with context copies, closure with fOffsets, finite closure, question,
+    capture marks).  [tok_wfb]: classes are compacted and bounded quantifiers have min <= max. *)
+Theorem T11_match_sound : forall w fuel t s, tok_wfb t = true ->
+  xmatch_tok w fuel t s = XTrue -> Lre (re_of_tok (fx_dot w) t) s.
+Proof. exact xmatch_tok_sound. Qed.
+Print Assumptions T11_match_sound.
+
+Definition parse_wf_accepts (pat s : list N) : bool :=
+  match parse sw_faithful pat with
+  | Ok t => tok_wfb t && match xmatch_tok sw_faithful 200 t s with XTrue => true | _ => false end
+  | Err _ => false
+  end.
+
+(** the hypotheses are satisfiable: parser output is well formed, e.g. for [a-c-[b]]{1,2}(x|y)* on "acxy" *)
+Example T11_match_sound_nonvacuous :
+  tok_wfb t_a_star_ab_opt = true /\ xmatch_tok sw_faithful 200 t_a_star_ab_opt [97; 97] = XTrue /\
+  parse_wf_accepts [91; 97; 45; 99; 45; 91; 98; 93; 93; 123; 49; 44; 50; 125; 40; 120; 124; 121; 41; 42] [97; 99; 120; 121] = true.
+Proof. vm_compute. repeat split. Qed.
+
+(** soundness of the search model of the non-schema API: a reported window [a, b) spells a word of the language *)
+Theorem T11_search_sound : forall w fuel sl t s a b, tok_wfb t = true ->
+  xsearch_tok w fuel sl t s = SFound a b ->
+  exists v rest, skipn a s = v ++ rest /\ b = (a + length v)%nat /\ Lre (re_of_tok_d (xp_dot (fx_dot w) sl) t) v.
+Proof. exact xsearch_tok_sound. Qed.
+Print Assumptions T11_search_sound.
+
+Example T11_search_nonvacuous : xsearch_tok sw_fixed 200 false t_a_star_ab_opt [120; 97; 98] = SFound 0 0 /\
+  xsearch_tok sw_fixed 200 false (TConcat [TString [97; 98]]) [120; 97; 98] = SFound 1 3.
+Proof. vm_compute. split; reflexivity. Qed.
 
 (** F27: [b]*[^a] rejects "bb" because doTokenOverlap intersects the negated class as if it were positive;
     with the repaired overlap test the same matcher accepts *)
